@@ -49,7 +49,7 @@ RULE = ('one case = one span program: StartSpan(name, kind, system/steady start 
         'differ in one place or only in order. Which API overload carries a call (Tracer::StartSpan: virtual, KeyValueIterable '
         'without links, container templates, initializer lists for attributes and / or links; Span::AddEvent / AddLink / AddLinks: '
         'virtual, container template, initializer list; End() / SetStatus(code) default arguments; provider / tracer ForceFlush / '
-        'Close; first or second GetTracer of the scope; explicit-context / context / root-context parent option) rotates '
+        'Close; processors built by constructor or by their factories; first or second GetTracer of the scope; explicit-context / context / root-context parent option) rotates '
         'deterministically with the shape of the case. Every caller buffer is an '
         'exact-size heap block freed right after the call. non-trivial = the program has at least one operation and is accepted; '
         'distinct = distinct case line')
